@@ -213,6 +213,7 @@ class Ctx:
     # ------------------------------------------------------- verdict policy
     def judge(self, jobs, records, verdicts, what=lambda j, r, c: ""):
         """Turn TLC's verdict lines into VIOLATION / KNOWN-FINDING bookkeeping."""
+        verdicts = self.session_merge(records, verdicts)
         for job, rec, v in zip(jobs, records, verdicts):
             clause, drift, klass = v
             self.evaluations += 1
@@ -242,6 +243,22 @@ class Ctx:
                 for i, x in enumerate(self.violations):
                     if x[:3] == key:
                         break
+
+    def session_merge(self, records, verdicts):
+        """call-sequence probe (harness/session.py): records that carry `session_flags` (a result of the
+        previous job changed while this job ran) are judged by TLC through Trace_Session.tla; that verdict
+        replaces an "ok" / skipped one (a record that already fails a property clause keeps it)."""
+        idx = [k for k, r in enumerate(records) if isinstance(r, dict) and r.get("session_flags")]
+        self.extra["call_sequence_probe"] = dict(records_with_a_changed_earlier_result=len(idx))
+        if not idx:
+            return verdicts
+        srecs = [dict(fn=records[k].get("fn", "?"), flags=records[k]["session_flags"]) for k in idx]
+        sv = self.validate("Trace_Session.tla", "Trace_Session.cfg", srecs, tag="Trace_Session")
+        out = list(verdicts)
+        for k, v in zip(idx, sv):
+            if v[0] != "ok" and (out[k][0] == "ok" or out[k][0].startswith("skip:")):
+                out[k] = v
+        return out
 
     def write_replay(self, job, rec, v):
         d = os.path.join(self.root, "replays", self.pid)
